@@ -202,10 +202,11 @@ struct verif_thread
   template <class F, class... A>
   explicit verif_thread(F &&f, A &&...a)
   {
-    auto fn = std::bind(std::forward<F>(f), std::forward<A>(a)...);
+    auto fn  = std::bind(std::forward<F>(f), std::forward<A>(a)...);
+    auto fnp = std::make_shared<decltype(fn)>(std::move(fn));  // the callable may be move-only
     // spawning is a visible step of the spawning thread
     detsched::point("spawn", this);
-    tid_ = detsched::spawn([fn]() mutable { fn(); });
+    tid_ = detsched::spawn([fnp]() { (*fnp)(); });
     detsched::note("spawn T" + std::to_string(tid_));
   }
   verif_thread(verif_thread &&o) noexcept : tid_(o.tid_) { o.tid_ = -1; }
@@ -251,7 +252,71 @@ inline verif_thread::id get_id() noexcept { return verif_thread::id{detsched::se
 }  // namespace verif_this_thread
 }  // namespace std
 
+namespace std
+{
+// promise<void> / future<void> on top of the shimmed mutex + condition variable: wait_for's expiry is a schedule action
+struct verif_fstate
+{
+  verif_mutex m;
+  verif_condition_variable cv;
+  bool ready = false;
+};
+template <class T>
+class verif_future;
+template <class T>
+class verif_promise;
+template <>
+class verif_future<void>
+{
+public:
+  verif_future() = default;
+  explicit verif_future(std::shared_ptr<verif_fstate> st) : st_(std::move(st)) {}
+  bool valid() const noexcept { return static_cast<bool>(st_); }
+  template <class Rep, class Period>
+  std::future_status wait_for(const std::chrono::duration<Rep, Period> &d) const
+  {
+    std::unique_lock<verif_mutex> lk(st_->m);
+    while (!st_->ready)
+    {
+      if (st_->cv.wait_for(lk, d) == std::cv_status::timeout)
+        return st_->ready ? std::future_status::ready : std::future_status::timeout;
+    }
+    return std::future_status::ready;
+  }
+  void wait() const
+  {
+    std::unique_lock<verif_mutex> lk(st_->m);
+    while (!st_->ready) st_->cv.wait(lk);
+  }
+  void get() { wait(); }
+
+private:
+  std::shared_ptr<verif_fstate> st_;
+};
+template <>
+class verif_promise<void>
+{
+public:
+  verif_promise() : st_(std::make_shared<verif_fstate>()) {}
+  verif_promise(verif_promise &&) noexcept            = default;
+  verif_promise &operator=(verif_promise &&) noexcept = default;
+  verif_promise(const verif_promise &)                = delete;
+  verif_future<void> get_future() { return verif_future<void>(st_); }
+  void set_value()
+  {
+    std::unique_lock<verif_mutex> lk(st_->m);
+    st_->ready = true;
+    st_->cv.notify_all();
+  }
+
+private:
+  std::shared_ptr<verif_fstate> st_;
+};
+}  // namespace std
+
 #define atomic verif_atomic
+#define promise verif_promise
+#define future verif_future
 #define mutex verif_mutex
 #define condition_variable verif_condition_variable
 #define thread verif_thread
